@@ -198,6 +198,11 @@ type xmsg struct {
 	Step            int
 }
 
+// sortKey orders messages independently of step numbers and optional flags.
+func (m xmsg) sortKey() string {
+	return m.Cmd + "|" + m.Detect + "|" + m.ID + "|" + m.Obj + "|" + m.Fields
+}
+
 func (m xmsg) String() string {
 	s := m.Cmd
 	if m.Detect != "" {
